@@ -106,7 +106,10 @@ class _Fr:
 
 class Recorder:
     def __init__(self, layers, fam, extra_line_codes=()):
-        self.layers = {lf.code: lf for lf in layers}
+        # NB: dictionaries are keyed by id(code): hashing a code object hashes its whole content (~20 us)
+        self._codes = [lf.code for lf in layers] + list(extra_line_codes)      # keep them alive
+        self.layers = {id(lf.code): lf for lf in layers}
+        self.layer_codes = [lf.code for lf in layers]
         self.fam = fam
         self.events = []
         self.stack = []          # list[_Fr]
@@ -116,11 +119,12 @@ class Recorder:
         self.hits = {}
         self.injected = False
         self.line_log = None     # list of (name, line, yields_of_frame) in dry runs
-        self.extra_line_codes = {c: None for c in extra_line_codes}
+        self.extra_line_codes = {id(c): c for c in extra_line_codes}
         self.active = False
         self.inst = {}
         self.exc_detail = []     # (class name, repr) of every exception that arose in a layer frame
-        self.loops = {}          # code -> set of `while` header lines (progress monitor)
+        self.loops = {}          # id(code) -> set of `while` header lines (progress monitor)
+        self.loop_codes = {}     # id(code) -> code
         self.loop_count = {}
         self.loop_bound = 1 << 62
         self.loop_over = None
@@ -137,29 +141,29 @@ class Recorder:
         mon.register_callback(TOOL, E.PY_UNWIND, self._unwind)
         mon.register_callback(TOOL, E.LINE, self._line)
         loc = E.PY_START | E.PY_RETURN | E.PY_YIELD
-        for code in self.layers:
-            mon.set_local_events(TOOL, code, loc | (E.LINE if line_events or code in self.loops else 0))
-        for code in self.extra_line_codes:
-            mon.set_local_events(TOOL, code, E.LINE if line_events or code in self.loops else 0)
+        for code in self.layer_codes:
+            mon.set_local_events(TOOL, code, loc | (E.LINE if line_events or id(code) in self.loops else 0))
+        for code in self.extra_line_codes.values():
+            mon.set_local_events(TOOL, code, E.LINE if line_events or id(code) in self.loops else 0)
         mon.set_events(TOOL, E.RAISE | E.RERAISE | E.EXCEPTION_HANDLED | E.PY_UNWIND)
         self._line_events = line_events
-        for code in self.loops:
-            if code not in self.layers and code not in self.extra_line_codes:
+        for cid, code in self.loop_codes.items():
+            if cid not in self.layers and cid not in self.extra_line_codes:
                 mon.set_local_events(TOOL, code, E.LINE)
 
     def set_line_events(self, on):
         if on == self._line_events:
             return
         loc = E.PY_START | E.PY_RETURN | E.PY_YIELD
-        for code in self.layers:
-            mon.set_local_events(TOOL, code, loc | (E.LINE if on or code in self.loops else 0))
-        for code in self.extra_line_codes:
-            mon.set_local_events(TOOL, code, E.LINE if on or code in self.loops else 0)
+        for code in self.layer_codes:
+            mon.set_local_events(TOOL, code, loc | (E.LINE if on or id(code) in self.loops else 0))
+        for code in self.extra_line_codes.values():
+            mon.set_local_events(TOOL, code, E.LINE if on or id(code) in self.loops else 0)
         self._line_events = on
 
     def uninstall(self):
         mon.set_events(TOOL, 0)
-        for code in list(self.layers) + list(self.extra_line_codes):
+        for code in self.layer_codes + list(self.extra_line_codes.values()) + list(self.loop_codes.values()):
             mon.set_local_events(TOOL, code, 0)
         mon.free_tool_id(TOOL)
 
@@ -214,7 +218,7 @@ class Recorder:
     def _start(self, code, off):
         if not self.active:
             return
-        lf = self.layers.get(code)
+        lf = self.layers.get(id(code))
         if lf is None:
             return
         frame = sys._getframe(1)
@@ -224,11 +228,11 @@ class Recorder:
         if self.stack:
             self._settle(len(self.stack) - 1)
         self.stack.append(_Fr(frame, lf))
-        self.inst[code] = self.inst.get(code, 0) + 1
+        self.inst[id(code)] = self.inst.get(id(code), 0) + 1
         self._emit(a="Enter", t=lf.t, k=lf.k)
 
     def _return(self, code, off, rv):
-        if not self.active or code not in self.layers:
+        if not self.active or id(code) not in self.layers:
             return
         i = self._find(sys._getframe(1))
         if i < 0:
@@ -240,7 +244,7 @@ class Recorder:
         self.stack.pop()
 
     def _yield(self, code, off, rv):
-        if not self.active or code not in self.layers:
+        if not self.active or id(code) not in self.layers:
             return
         i = self._find(sys._getframe(1))
         if i < 0:
@@ -258,7 +262,7 @@ class Recorder:
     def _raise(self, code, off, exc):
         if not self.active:
             return
-        lf = self.layers.get(code)
+        lf = self.layers.get(id(code))
         if lf is None:
             return
         if isinstance(exc, GeneratorExit):
@@ -291,7 +295,7 @@ class Recorder:
         fr.pending, fr.handling = exc, False
 
     def _reraise(self, code, off, exc):
-        if not self.active or code not in self.layers:
+        if not self.active or id(code) not in self.layers:
             return
         i = self._find(sys._getframe(1))
         if i < 0:
@@ -304,7 +308,7 @@ class Recorder:
             fr.pending, fr.handling = exc, False
 
     def _handled(self, code, off, exc):
-        if not self.active or code not in self.layers:
+        if not self.active or id(code) not in self.layers:
             return
         frame = sys._getframe(1)
         i = self._find(frame)
@@ -316,7 +320,7 @@ class Recorder:
             fr.hline = frame.f_lineno
 
     def _unwind(self, code, off, exc):
-        if not self.active or code not in self.layers:
+        if not self.active or id(code) not in self.layers:
             return
         frame = sys._getframe(1)
         i = self._find(frame)
@@ -344,22 +348,23 @@ class Recorder:
     def _line(self, code, line):
         if not self.active:
             return
-        heads = self.loops.get(code)
+        cid = id(code)
+        heads = self.loops.get(cid)
         if heads is not None:
             if line in heads:
-                k = (code, line)
+                k = (cid, line)
                 n = self.loop_count.get(k, 0) + 1
                 self.loop_count[k] = n
                 if n > self.loop_bound:
                     self.loop_over = (code.co_name, line, n)
                     raise LoopOverrun(f"{code.co_name}:{line} iterated {n} times")
-            elif code not in self.layers and code not in self.extra_line_codes:
+            elif cid not in self.layers and cid not in self.extra_line_codes:
                 return mon.DISABLE
-        lf = self.layers.get(code)
+        lf = self.layers.get(id(code))
         if self.line_log is not None and lf is not None:
             i = self._find(sys._getframe(1))
             y = self.stack[i].yields if i >= 0 else 0
-            self.line_log.append((lf.name, line, 1 if y else 0, self.inst.get(code, 1)))
+            self.line_log.append((lf.name, line, 1 if y else 0, self.inst.get(id(code), 1)))
         inj = self.inject
         if inj is None or self.injected or code is not inj["code"] or line != inj["line"]:
             return
